@@ -305,6 +305,12 @@ func racIdx(xs []int64, i int64) int64 {
 	}
 	return xs[i]
 }
+func racIdxB(xs []byte, i int64) byte {
+	if i < 0 || i >= int64(len(xs)) {
+		return 0
+	}
+	return xs[i]
+}
 func racRep(z *BigInt) bool {
 	if z == nil {
 		return true
